@@ -179,6 +179,7 @@ def scenario_ops(e, cfg, rel, kind, payload, order):
         mark("base", GETTERS)
         ops += fault()
         mark("faulted", GETTERS)
+        mark("faulted2", GETTERS)          # the same calls again while the fault persists
         ops += repair()
         mark("reinit", recover())
         mark("recovered", GETTERS)
@@ -186,6 +187,7 @@ def scenario_ops(e, cfg, rel, kind, payload, order):
         ops += fault()
         mark("init", init())
         mark("faulted", GETTERS)
+        mark("faulted2", GETTERS)
         ops += repair()
         mark("reinit", recover())
         mark("recovered", GETTERS)
@@ -317,6 +319,13 @@ def work(item):
 
         if "faulted" in idx:
             judge_under_fault(r[idx["faulted"]:idx["faulted"] + NG], baselines[other] if other else base, "", when == "before-load")
+        if "faulted2" in idx:
+            # a fault that is still there is still reported: a call that failed must not succeed when it is simply repeated
+            r1, r2 = r[idx["faulted"]:idx["faulted"] + NG], r[idx["faulted2"]:idx["faulted2"] + NG]
+            for nm, x1, x2 in zip(GNAMES, r1, r2):
+                if is_err(x1) and is_ok(x2):
+                    bad(f"fault-forgotten|{nm}", f"{nm} failed under the fault ({short(x1, 80)}) but the same call repeated while the fault persists returns {short(obs(x2), 80)}")
+                    break
         if "bystander" in idx:
             # calls under the configuration that never reads the faulted file: same rule (an error must name the faulted file, an Ok must be unchanged)
             judge_under_fault(r[idx["bystander"]:idx["bystander"] + NG], baseline, "bystander-configuration:", False)
@@ -529,7 +538,7 @@ def main(tier):
              "navigate, overview, regional files, braille rules/unicode/definitions); fault kinds: deleted, empty, top-level scalar, top-level map, not YAML, truncated at entry "
              "boundaries (quick: 4 per file; thorough: all for files <= 300 entries, else first/last 50 and every 25th), truncated mid-entry, rule with uncompilable XPath, rule "
              "with unknown key, wrongly typed definition, bad character entry, prefs of the wrong shape; orders of fault, call and repair: fault before first load / after load, with and "
-             "without a call while the fault is present; recovery by file checking + re-pointing (every scenario), and by each remedy ALONE (file checking only / re-pointing only: "
+             "without calls while the fault is present (the calls are made twice: a call that failed must fail again while the fault persists); recovery by file checking + re-pointing (every scenario), and by each remedy ALONE (file checking only / re-pointing only: "
              "quick - one fault of each kind per file of the first configuration, thorough - all); faults in files that only ANOTHER configuration reads, met by switching to it and "
              "back (calls under the bystander configuration must be unaffected, both configurations must recover; quick 2 ordered pairs, thorough all 6); "
              "7 directory-level histories per configuration (wrong dir, empty dir, Languages/Braille/language/code directory removed, prefs.yaml missing at first init). "
